@@ -277,6 +277,71 @@ def calls_part(run, scratch, cfg):
     return len(seen), ncalls
 
 
+def rows_score(r1, r2, S, lnT, lnpi0, lnn):
+    """pair-HMM score of an alignment given as two gapped rows (same sufficient statistics as PairAlign.tla's Report)."""
+    sc, prev = 0.0, None
+    for x, y in zip(r1, r2):
+        st = "M" if x != "-" and y != "-" else ("X" if y == "-" else "Y")
+        sc += lnpi0[IDX[st]] if prev is None else lnT[IDX[prev], IDX[st]]
+        if st == "M":
+            sc += S[x, y] + lnn
+        prev = st
+    return sc
+
+
+def long_pairs(run, seed):
+    """Sequence pairs far beyond the bounded path space: the SAME obligations (rows degap to the inputs, reported score =
+    score of the returned path, linear-space = full DP, a path written down by construction does not beat the result) on
+    sequences of 1000-1600 residues, where totals are large (float tie-breaking) and the linear-space recursion is deep.
+    Scoring with near-ties: a transition scores almost like a match."""
+    import random
+
+    from cogent3 import make_seq
+    from cogent3.align import pairwise
+    from cogent3.align.align import global_pairwise, make_dna_scoring_dict
+
+    rnd = random.Random(seed)
+    S = make_dna_scoring_dict(10, 9.9, -8)
+    d, e = 10, 2
+    lnT, lnpi0, lnn = weights(S, d, e)
+    orig = pairwise.HIRSCHBERG_LIMIT
+    n = 0
+    for trial in range(2):
+        L = "".join(rnd.choice("ACGT") for _ in range(rnd.randrange(600, 800)))
+        R = "".join(rnd.choice("ACGT") for _ in range(len(L) - 1 + rnd.randrange(-2, 3)))
+        a, b = L + "A" + R, L + "GA" + R     # the insert sits at the middle row of the first sequence
+        hand = (L + "-A" + R, L + "GA" + R)  # the alignment by construction
+        s1, s2 = make_seq(a, name="s1", moltype="dna"), make_seq(b, name="s2", moltype="dna")
+        results = {}
+        for name, limit in (("full-dp", 10**12), ("hirschberg", 0)):
+            pairwise.HIRSCHBERG_LIMIT = limit
+            try:
+                aln, score = global_pairwise(s1, s2, S, d, e, return_score=True)
+            except Exception as ex:
+                run.fail(f"pairwise:global:long:{name}:raised", {"len": [len(a), len(b)], "exception": repr(ex)}, what="aligner raised on a long pair")
+                continue
+            finally:
+                pairwise.HIRSCHBERG_LIMIT = orig
+            n += 1
+            rows = aln.to_dict()
+            r1, r2 = rows["s1"], rows["s2"]
+            case = {"len": [len(a), len(b)], "algorithm": name, "reported_score": score, "insert_at": len(L)}
+            if len(r1) != len(r2) or r1.replace("-", "") != a or r2.replace("-", "") != b:
+                run.fail(f"pairwise:global:long:{name}:rows-not-a-path", case, what="returned rows do not degap to the inputs / unequal length")
+                continue
+            got = rows_score(r1, r2, S, lnT, lnpi0, lnn)
+            best_known = rows_score(hand[0], hand[1], S, lnT, lnpi0, lnn)
+            case.update(score_of_returned_path=got, score_of_constructed_path=best_known)
+            if abs(got - score) > 1e-9 * max(1.0, abs(score)):
+                run.fail(f"pairwise:global:long:{name}:reported-score-differs", case, what="reported score is not the score of the returned path")
+            if best_known > score + 1e-9 * max(1.0, abs(score)):
+                run.fail(f"pairwise:global:long:{name}:not-optimal", case, what="a path written down by construction scores higher than the returned one")
+            results[name] = score
+        if len(results) == 2 and abs(results["full-dp"] - results["hirschberg"]) > 1e-9 * max(1.0, abs(results["full-dp"])):
+            run.fail("pairwise:global:long:hirschberg-score-differs", {"len": [len(a), len(b)], "scores": results}, what="linear-space and full DP disagree on the score of a long pair")
+    return n
+
+
 def layout_rows(layout, ref, seqchars):
     """Concrete (ref row, seq row, seq) for a layout."""
     r, s = [], []
@@ -433,10 +498,11 @@ def check(run: Run):
     quick = run.tier == "quick"
     with Scratch("C18") as scratch:
         npairs, ncalls, npaths = pairwise_part(run, scratch, "MC_PairAlign_quick.cfg" if quick else "MC_PairAlign_thorough.cfg", 3 if quick else 4)
+        nlong = long_pairs(run, run.seed)
         nhist, nhcalls = calls_part(run, scratch, "MC_AlignCalls_quick.cfg" if quick else "MC_AlignCalls_thorough.cfg")
         nref = refmerge_part(run, scratch, "MC_RefMerge_quick.cfg" if quick else "MC_RefMerge_thorough.cfg")
         nprog = progressive_part(run, run.seed)
-    run.cov["traces_validated_against_impl"] = ncalls + nref + nprog + nhcalls
+    run.cov["traces_validated_against_impl"] = ncalls + nref + nprog + nhcalls + nlong
     run.cov["evaluations"] = ncalls + nref + nprog + nhcalls
     run.cov["distinct_nontrivial"] = npairs + nref
     run.cov["rule"] = (
@@ -447,6 +513,7 @@ def check(run: Run):
     )
     run.note("pairwise", {"pair_mode_groups": npairs, "aligner_calls": ncalls, "paths_enumerated": npaths})
     run.note("refmerge_cases", nref)
+    run.note("long_pair_calls", nlong)
     run.note("align_call_histories", {"histories": nhist, "aligner_calls": nhcalls})
     run.assumptions += [
         "path scores (ln of transition / start probabilities, dot products, max) are evaluated in float in the harness from TLC's sufficient statistics",
